@@ -40,6 +40,10 @@ EXPLANATION += " Added: (R6) the writers' pre-flight applies segmentation / un-r
 # --- metadata added for batch 8
 EXPLANATION += ' R1 / R6 evaluate caches keyed by `id()` with weak references; the guard matrix has a row for shells listed out of atom order.'
 # --- end metadata batch 8
+# --- metadata added after the round-3 refactoring twins
+TECHNIQUE += '; evaluation of the generalized-orbital guard'
+EXPLANATION += ' R4: prepare_unrestricted_aminusb is interpreted on four model objects with generalized orbitals; the conversion routine is a recorder that must not be reached before the exception.'
+# --- end metadata round-3 twins
 TRUSTED = ["CPython ast parser", "attrs.evolve copies all fields not named", "np.concatenate keeps the order of its inputs"]
 
 
